@@ -15,9 +15,9 @@ demo_path=$(grep -oE 'noodles-[a-z]+/tests/seed_demo_[0-9a-z_]*\.rs' $sd/notes.m
 crate=${demo_path%%/*}; tname=$(basename $demo_path .rs)
 out=/verif/seeded/$id-$n; mkdir -p $out
 mkdir -p $(dirname $demo_path); cp $sd/demo.rs $demo_path
-echo "--- demo without change"; cargo test --offline -p $crate --test $tname > $out/demo_without.log 2>&1; rc_without=$?
+echo "--- demo without change"; cargo test --offline --all-features -p $crate --test $tname > $out/demo_without.log 2>&1; rc_without=$?
 git apply $sd/patch.diff || { echo "patch does not apply to current HEAD"; exit 2; }
-echo "--- demo with change"; cargo test --offline -p $crate --test $tname > $out/demo_with.log 2>&1; rc_with=$?
+echo "--- demo with change"; cargo test --offline --all-features -p $crate --test $tname > $out/demo_with.log 2>&1; rc_with=$?
 rm -f $demo_path; rmdir $(dirname $demo_path) 2>/dev/null
 echo "--- suite with change"; cargo nextest run --workspace --no-fail-fast --offline > $out/suite_with.log 2>&1; rc_suite=$?
 summary=$(grep -E "Summary|tests run" $out/suite_with.log | tail -1)
